@@ -93,6 +93,7 @@ fn main() {
         "work" => worker(&args[2], &args[3], args[4].parse().unwrap(), &args[5]),
         "replay" => replay(&args[2]),
         "lp" => probe_lp(&args[2]),
+        "selftest-none" => 0,
         _ => {
             eprintln!("usage: vmon run <Cxx> <quick|thorough> | replay <file> | selftest");
             2
@@ -373,6 +374,17 @@ fn supervisor(id: &str, tier_s: &str) -> i32 {
         }
     }
 
+    // auxiliary sanitizer tier (thorough only): the same workload under Miri / valgrind memcheck
+    let mut sanitizer = json!(null);
+    if tier == Tier::Thorough && std::env::var("VMON_NO_SANITIZER").is_err() {
+        let (sj, sviol, sinc) = sanitizer_tier(id, seed, &root, &workdir);
+        sanitizer = sj;
+        for (sig, d) in sviol {
+            violations_out.push((sig, d));
+        }
+        inconclusive.extend(sinc);
+    }
+
     let evaluations = r.get("evaluations").and_then(|v| v.as_u64()).unwrap_or(0);
     let distinct = r.get("distinct_nontrivial").and_then(|v| v.as_u64()).unwrap_or(0);
     if violations_out.is_empty() && inconclusive.is_empty() && (evaluations == 0 || distinct < 2) {
@@ -418,6 +430,9 @@ fn supervisor(id: &str, tier_s: &str) -> i32 {
     });
     if let Some(n) = def.exhaustive_note {
         coverage["exhaustive_subspace"] = json!(n);
+    }
+    if !sanitizer.is_null() {
+        coverage["sanitizer_tier"] = sanitizer;
     }
     let evidence = json!({
         "property_id": id,
@@ -517,4 +532,132 @@ fn probe_lp(arg: &str) -> i32 {
     }));
     println!("rank {} of {} columns", lpx::rank(&sys.a, sys.n), sys.n);
     0
+}
+
+/// Which properties get the auxiliary sanitizer tier in their thorough command, and how many cases.
+fn sanitizer_plan(id: &str) -> Option<(&'static str, u64, usize)> {
+    // (tool, cases per process, processes)
+    match id {
+        "C12" => Some(("miri", 40, 16)),
+        "C13" => Some(("miri", 25, 16)),
+        "C04" => Some(("valgrind", 120, 8)),
+        "C05" => Some(("valgrind", 120, 8)),
+        _ => None,
+    }
+}
+
+/// Runs the worker again under Miri (tree-only properties) or valgrind memcheck (history
+/// properties) on fresh case numbers. A report of undefined behaviour / an invalid access is a
+/// VIOLATION of the property whose history triggered it (with the tool's log as replay file);
+/// monitor disagreements found under the tool count like any other; everything else (tool not
+/// available, unsupported operation, timeout) is INCONCLUSIVE for the tier but never a violation.
+fn sanitizer_tier(id: &str, seed: u64, root: &std::path::Path, workdir: &std::path::Path) -> (Value, Vec<(String, Value)>, Vec<String>) {
+    let (tool, cases, procs) = match sanitizer_plan(id) {
+        Some(p) => p,
+        None => return (json!(null), vec![], vec![]),
+    };
+    let harness = root.join("harness");
+    let exe = std::env::current_exe().unwrap();
+    let t0 = Instant::now();
+    if tool == "miri" {
+        // build once so that the parallel runs do not fight over the cargo lock
+        let b = std::process::Command::new("cargo")
+            .args(["+nightly", "miri", "run", "--offline", "--", "selftest-none"])
+            .current_dir(&harness)
+            .env("MIRIFLAGS", "-Zmiri-disable-isolation")
+            .output();
+        if b.is_err() {
+            return (json!({"tool": "miri", "status": "unavailable"}), vec![], vec!["sanitizer tier: cargo +nightly miri could not be started".into()]);
+        }
+    }
+    let mut children = Vec::new();
+    for i in 0..procs {
+        let out = workdir.join(format!("san-{}.json", i));
+        let log = workdir.join(format!("san-{}.log", i));
+        let first_case = 50_000_000u64 + (i as u64) * 100_000;
+        let logf = std::fs::File::create(&log).unwrap();
+        let logf2 = logf.try_clone().unwrap();
+        let child = if tool == "miri" {
+            std::process::Command::new("cargo")
+                .args(["+nightly", "miri", "run", "--offline", "--", "work", id, "thorough", &seed.to_string(), out.to_str().unwrap(), &cases.to_string(), "1", &first_case.to_string()])
+                .current_dir(&harness)
+                .env("MIRIFLAGS", "-Zmiri-disable-isolation")
+                .stdout(logf)
+                .stderr(logf2)
+                .spawn()
+        } else {
+            std::process::Command::new("valgrind")
+                .args(["--error-exitcode=99", "--leak-check=no", "--quiet"])
+                .arg(&exe)
+                .args(["work", id, "thorough", &seed.to_string(), out.to_str().unwrap(), &cases.to_string(), "1", &first_case.to_string()])
+                .stdout(logf)
+                .stderr(logf2)
+                .spawn()
+        };
+        match child {
+            Ok(c) => children.push((i, c, out, log)),
+            Err(e) => return (json!({"tool": tool, "status": "unavailable", "error": e.to_string()}), vec![], vec![format!("sanitizer tier: {} could not be started", tool)]),
+        }
+    }
+    let deadline = Duration::from_secs(3600);
+    let mut cases_run = 0u64;
+    let mut ops: BTreeMap<String, u64> = BTreeMap::new();
+    let mut viols = Vec::new();
+    let mut inconcl = Vec::new();
+    let mut reports = 0u64;
+    for (i, mut c, out, log) in children {
+        let status = loop {
+            match c.try_wait() {
+                Ok(Some(s)) => break Some(s),
+                Ok(None) => {
+                    if t0.elapsed() > deadline {
+                        let _ = c.kill();
+                        let _ = c.wait();
+                        break None;
+                    }
+                    std::thread::sleep(Duration::from_millis(200));
+                }
+                Err(_) => break None,
+            }
+        };
+        let logtxt = std::fs::read_to_string(&log).unwrap_or_default();
+        let ub = logtxt.contains("Undefined Behavior") || logtxt.contains("Invalid read") || logtxt.contains("Invalid write") || logtxt.contains("uninitialised value") || logtxt.contains("Invalid free");
+        if ub {
+            reports += 1;
+            let keep = root.join("replays").join(format!("{}-thorough-{}-{}-{}.log", id, seed, tool, i));
+            let _ = std::fs::copy(&log, &keep);
+            viols.push((
+                format!("sanitizer:{}", tool),
+                json!({"property": id, "seed": seed, "tier": "thorough", "case": 50_000_000u64 + (i as u64) * 100_000, "tool": tool, "log": keep.to_string_lossy(), "excerpt": logtxt.lines().filter(|l| l.contains("Undefined Behavior") || l.contains("Invalid") || l.contains("uninitialised")).take(5).collect::<Vec<_>>()}),
+            ));
+            continue;
+        }
+        match (status, std::fs::read(&out).ok().and_then(|b| serde_json::from_slice::<Value>(&b).ok())) {
+            (Some(s), Some(v)) if s.success() => {
+                cases_run += v["cases_started"].as_u64().unwrap_or(0).saturating_sub(50_000_000u64 + (i as u64) * 100_000);
+                if let Some(o) = v["counters"].as_object() {
+                    for (k, n) in o {
+                        *ops.entry(k.clone()).or_insert(0) += n.as_u64().unwrap_or(0);
+                    }
+                }
+                if let Some(arr) = v["violations"].as_array() {
+                    for x in arr {
+                        viols.push((
+                            format!("{}(under {})", x["sig"].as_str().unwrap_or("?"), tool),
+                            json!({"property": id, "seed": seed, "tier": "thorough", "case": x["case"], "detail": x["detail"], "sig": x["sig"], "found_under": tool}),
+                        ));
+                    }
+                }
+            }
+            (None, _) => inconcl.push(format!("sanitizer tier: {} process {} exceeded its time limit", tool, i)),
+            (Some(s), _) => inconcl.push(format!("sanitizer tier: {} process {} ended with {:?} without a report of undefined behaviour: {}", tool, i, s, logtxt.lines().rev().find(|l| l.contains("error")).unwrap_or("").chars().take(160).collect::<String>())),
+        }
+    }
+    (
+        json!({"tool": tool, "processes": procs, "cases_per_process": cases, "cases_run": cases_run, "reports": reports,
+               "observations": ev::map_to_json(&ops), "wall_s": t0.elapsed().as_secs_f64(),
+               "note": "a clean run is 'no report on these executions', not memory safety"}),
+        viols,
+        inconcl,
+    )
 }
